@@ -4,13 +4,13 @@
 ID="$1"; WT="${2:-/tmp/seed/$ID}"
 export CARGO_TARGET_DIR=/tmp/seed/target CARGO_NET_OFFLINE=true
 cd "$WT" || exit 2
-git checkout -q -- . ; rm -f tests/seed_demo.rs
+git checkout -q -- . ; git clean -fdq crates; rm -f tests/seed_demo.rs
 git apply --check seed/patch.diff || { echo "$ID: patch does not apply"; exit 1; }
 git apply seed/patch.diff
 suite=$(cargo nextest run --workspace --no-fail-fast --tool-config-file pb:/w/lib/nextest.toml --profile pb --test-threads 8 --offline 2>&1 | grep -E "Summary|error(\[|:)" | head -3)
 cp seed/demo.rs tests/seed_demo.rs
 with=$(cargo test --test seed_demo --offline 2>&1 | grep -E "^test result|error(\[|:)" | head -2)
-git checkout -q -- .
+git checkout -q -- . ; git clean -fdq crates
 without=$(cargo test --test seed_demo --offline 2>&1 | grep -E "^test result|error(\[|:)" | head -2)
 rm -f tests/seed_demo.rs
 echo "$ID suite_with_change: $suite"
